@@ -2267,8 +2267,6 @@ impl<'a, E: quiver_core::effects::Effect> Compiler<'a, E> {
             .add_instruction(Instruction::Reset(locals_before));
 
         // Emit cleanup blocks for branches that need to reset locals before jumping
-        // Track jumps that need to be patched to the final end address
-        let mut final_end_jumps = Vec::new();
 
         // Check if we need cleanup blocks (any branch needs cleanup)
         let has_cleanup_blocks = next_branch_jumps
@@ -2300,8 +2298,9 @@ impl<'a, E: quiver_core::effects::Effect> Compiler<'a, E> {
                 if let Some(addr) = target_addr {
                     self.codegen.emit_jump_to_addr(addr);
                 } else {
-                    // Target is final end - will patch later
-                    final_end_jumps.push(self.codegen.emit_jump_placeholder());
+                    // Target is the block's end: go through the parameter clear so the block's
+                    // parameter local is released on this path too.
+                    self.codegen.emit_jump_to_addr(param_clear_addr);
                 }
 
                 // Patch original jump to point to cleanup block
@@ -2311,18 +2310,15 @@ impl<'a, E: quiver_core::effects::Effect> Compiler<'a, E> {
                 if let Some(addr) = target_addr {
                     self.codegen.patch_jump_to_addr(jump_addr, addr);
                 } else {
-                    // Target is final end - will patch later
-                    final_end_jumps.push(jump_addr);
+                    // Target is the block's end: go through the parameter clear (see above).
+                    self.codegen.patch_jump_to_addr(jump_addr, param_clear_addr);
                 }
             }
         }
 
-        // Patch the skip-cleanup jump and all final-end jumps to current position
+        // Patch the skip-cleanup jump to current position
         if let Some(skip_jump) = skip_cleanup_jump {
             self.codegen.patch_jump_to_here(skip_jump);
-        }
-        for jump_addr in final_end_jumps {
-            self.codegen.patch_jump_to_here(jump_addr);
         }
 
         // Patch end_jumps to go to param clear
